@@ -103,22 +103,31 @@ def LMon.absorb : Nat → LMon → LMon
     | none => m
     | some p => LMon.absorb fuel { m with nextSeq := next p.1 p.2, chain := p :: m.chain, ahead := m.ahead.filter (· != p) }
 
+/-- a batch under the monitor's current epoch: it continues the chain, repeats a batch seen before, or is kept aside -/
+def LMon.sameEpoch (m : LMon) (f n : Int) : Option LMon :=
+  if f == m.nextSeq then
+    let m' := { m with nextSeq := next f n, chain := (f, n) :: m.chain }
+    some (LMon.absorb m'.ahead.length m')
+  else if m.chain.contains (f, n) || m.ahead.contains (f, n) then some m
+  else if (m.chain ++ m.ahead).any (fun p => p.1 == f) then none     -- two different batches with one first sequence
+  else some { m with ahead := (f, n) :: m.ahead }
+
+/-- The first batch to ARRIVE need not be the first one written (the first request can be the one that is lost), neither
+at the start of the history (the chain starts at `nextSeq` of the initial state, the partition's starting sequence) nor
+after an epoch change (the chain of a new epoch starts at 0). -/
 def LMon.step (m : LMon) : Ev → Option LMon
   | .reset => some { m with allow := true }
   | .batch e f n =>
     if f < 0 || f ≥ seqMod || n < 1 || n ≥ seqMod then none
     else if !m.started then
-      some { started := true, epoch := e, nextSeq := next f n, chain := [(f, n)], allow := false, ahead := [] }
-    else if e == m.epoch then
-      if f == m.nextSeq then
-        let m' := { m with nextSeq := next f n, chain := (f, n) :: m.chain }
-        some (LMon.absorb m'.ahead.length m')
-      else if m.chain.contains (f, n) || m.ahead.contains (f, n) then some m
-      else if (m.chain ++ m.ahead).any (fun p => p.1 == f) then none     -- two different batches with one first sequence
-      else some { m with ahead := (f, n) :: m.ahead }
-    else if m.allow && f == 0 then
-      some { started := true, epoch := e, nextSeq := next 0 n, chain := [(0, n)], allow := false, ahead := [] }
+      LMon.sameEpoch { m with started := true, epoch := e, chain := [], allow := false, ahead := [] } f n
+    else if e == m.epoch then LMon.sameEpoch m f n
+    else if m.allow then
+      LMon.sameEpoch { started := true, epoch := e, nextSeq := 0, chain := [], allow := false, ahead := [] } f n
     else none
+
+/-- the initial state of a partition whose first batch is numbered `start` -/
+def LMon.init (start : Int) : LMon := { nextSeq := start }
 
 def LMon.run : LMon → List Ev → Option LMon
   | m, [] => some m
